@@ -53,6 +53,17 @@ func (table *CollisionTable) compareAndSet(it *HintItem, reason string) {
 	}
 }
 
+// updatePos repoints the entry of it.Key to it, if the entry still points at oldPos.
+func (table *CollisionTable) updatePos(it *HintItem, oldPos Position) {
+	table.Lock()
+	defer table.Unlock()
+	if items, ok := table.Items[it.Keyhash]; ok {
+		if old, ok := items[it.Key]; ok && old.Pos == oldPos {
+			items[it.Key] = *it
+		}
+	}
+}
+
 func (table *CollisionTable) dumps() (content []byte) {
 	table.Lock()
 	content, _ = yaml.Marshal(table)
